@@ -363,6 +363,7 @@ int SQLITE3::Handle::close()
 {
   if (_stmt)
     sqlite3_finalize(_stmt);
+  _stmt = nullptr;
   int r = sqlite3_close(_db);
   _db = nullptr;
   _path.clear();
